@@ -406,7 +406,8 @@ class DeserializationMethodVisitor(
                     settings.errors.one_of, [value for _, value in value_map]
                 ),
                 self.coercer,
-                tuple({cls for cls, _ in value_map}),
+                # classes in the order of the values (coercion tries them in order)
+                tuple(dict.fromkeys(cls for cls, _ in value_map)),
             )
             literal_constraints = dict(constraints_validators(constraints))
             if literal_constraints:
